@@ -1594,6 +1594,18 @@ impl<'a> Gen<'a> {
         self.emit(format!("advance {}", DAY * 1_000_000_000));
         self.emit("tx u2 0 fm claim -".to_string());
         self.emit("tx u3 0 fm claim -".to_string());
+        // … and only NOW a farm appears on that LP token: the stakers who claimed while it was farm-less are paid their full
+        // share of every epoch the farm runs (their weight history must have survived those empty claims)
+        let cur = self.cur_epoch();
+        let rate = 1000 + self.r.below(20_000) as u128;
+        let asset = coin(rate * 6, "uusdc");
+        let funds = self.farm_fee_funds(&asset);
+        self.emit(format!("tx u1 {} fm createfarm {} {} {} uusdc {} nff{}", funds_str(&funds), lp, cur + 1, cur + 7, rate * 6, tag));
+        self.emit(format!("advance {}", 2 * DAY * 1_000_000_000));
+        self.emit("tx u3 0 fm claim -".to_string());
+        self.emit("tx u2 0 fm claim -".to_string());
+        self.emit(format!("advance {}", DAY * 1_000_000_000));
+        self.emit("tx u3 0 fm claim -".to_string());
     }
 
     /// directed scenario for C06 / C07: a staker who has ALREADY claimed the current epoch gets a further position through a
